@@ -743,6 +743,16 @@ class Sim:
             except Exception as e:  # noqa
                 self.obs.append(f"RAISE stop {type(e).__name__}")
             self.report_writes()
+        elif op == "rxn":
+            # rxn k m1 m2 …: each message arrives in a read of its own, the I/O loop makes one pass per read back to back, and
+            # the connection's reader thread only runs afterwards (it was busy / not scheduled): the reads pile up in its queue
+            sk = self.sock(int(t[1]))
+            if sk is not None and not sk.closed:
+                for d in t[2:]:
+                    sk.inbox.append(build_msg(d))
+                    self.env.want_read.add(sk)
+                    self.io_iteration()
+            self.settle()
         elif op == "busy":
             # busy k ms: ONE call of the I/O loop making k passes, its select() returning every `ms` milliseconds (k*ms a whole
             # number of seconds) -- a loop that is woken more often than once a second for a while; state the loop carries
